@@ -90,22 +90,17 @@ def gen_history(rng, allow):
 
 
 def history_class(revs):
-    """decidable class of the history (known findings), mirrors KnownClass in Props/C07.v"""
+    """decidable class of the history (known findings), mirrors KnownClass in Spec/History.v.
+    hybrid-update and objstm-stale-generation were classes here until the reader was repaired (merge_xref_stream; one
+    generation per object number): such histories are now ordinary cases and must satisfy latest-revision-wins."""
     cls = set()
     seen = {}      # num -> list of (rev index, place kind, gen)
     for rn, r in enumerate(revs):
-        hybrid = r.style == 'hybrid' or (r.style == 'table' and any(p[3] != 'plain' for p in r.puts))
         for (i, g, o, place) in r.puts:
             before = seen.get(i, [])
             in_os_before = [b for b in before if b[1] == 'os']
-            if place != 'plain':
-                if in_os_before and not XREF_NAMES_CONTAINER:
-                    cls.add('objstm-shadow')
-                if hybrid and before:
-                    cls.add('hybrid-update')
-            else:
-                if in_os_before and g != 0:
-                    cls.add('objstm-stale-generation')
+            if place != 'plain' and in_os_before and not XREF_NAMES_CONTAINER:
+                cls.add('objstm-shadow')
             seen.setdefault(i, []).append((rn, 'plain' if place == 'plain' else 'os', g))
         for (i, g) in r.dels:
             if seen.get(i):
@@ -270,7 +265,7 @@ def gen_cases(rng, tier):
 
 def classify(line, tags, model_out, impl_out, verdict):
     cls = tags.get('class') or []
-    for c in ('objstm-shadow', 'objstm-stale-generation', 'freed-comes-back', 'hybrid-update'):
+    for c in ('objstm-shadow', 'freed-comes-back'):
         if c in cls:
             return c
     return None
@@ -292,29 +287,39 @@ SPEC = {
             'optionally prefixed with junk, some > 64 KiB) and hand-assembled histories, then 1-3 update steps (set/add/clone/setkey/'
             'get_or_create_resources/add_xobject) replayed through IncrementalDocument with save_to + reload after each step, output '
             'compared byte for byte with the model; non-trivial = at least 2 revisions or any replay',
-    'partial_note': 'C07_full (Proofs/C07Full.v) is not proved at byte level: the loader and the reference writer are not in Coq yet. '
-                    'Proved: the merge/Prev-loop/object-loading core on layouts (A1-A6), refutations on the three open classes (A7), '
-                    'the save side completely at byte level (B1-B3), reload/re-loadability at table level (B4-B5).',
+    'partial_note': 'Byte level (Model/Loader.v) for histories written by lopdf itself, both cross-reference formats, any number of '
+                    'updates: load (inc_save ..) = overlay, every file of a history satisfies the chain invariant and can be updated '
+                    'again (C07_inc_save_reload, C07_history_loads, C07_history_update_again). For files of other producers (hybrid '
+                    'XRefStm sections, object streams, free entries, Prev cycles) parsing is a layout tied by the differential run; the '
+                    'merge / Prev-loop / object-loading core is proved on layouts (A1-A6, B4-B5) and the file-level statement '
+                    'C07_full (Proofs/C07Full.v) stays a Definition: it is REFUTED on the open class freed-comes-back (A7). '
+                    'Hypothesis of the byte-level theorems: a new object re-uses an identifier (number AND generation) of the loaded '
+                    'document or carries a new number (C07_generation_hypothesis_needed).',
     'extra_trusted': ['C07: gen/histgen.py (reference writer of hand-assembled histories and of the layout the abstract loader model reads)',
-                      'C07: the layout abstraction (what the byte-level parsers find where) is tied to the crate only by correspondence '
-                      '(Model/Xref.v / Model/Loader.v of C02/C01 are to replace it)',
-                      'C07: Model/Save.v (c01) pieces reused by Model/Incremental.v'],
+                      'C07: the layout abstraction (what the byte-level parsers find where) for files NOT written by lopdf is tied to '
+                      'the crate only by correspondence',
+                      'C07: Model/Save.v, Model/Loader.v (c01), Model/Xref.v (c02) and their round-trip lemmas reused by the byte-level proofs'],
 }
 
 
 MANIFEST = {
-    'level_text': 'Machine-checked (Coq) about the models of Xref::merge / the Prev loop / object loading (src/reader.rs, src/xref.rs as '
-                  'repaired by f28e935, 44beb46) and of IncrementalDocument + save_internal (as repaired by bb85a17): for all chains of '
-                  'sections every object number gets the entry of the newest section that has one (merge_chain_latest, read on every '
-                  'Prev chain, cycles cut, termination on all layouts); Normal entries win, Compressed entries name their container; '
-                  'incremental save output = previous bytes ++ only the new objects at exact header-relative offsets ++ one section '
-                  'with Prev = previous xref_start, for all inputs (prefix also on failure); edits never touch the previous view; '
-                  'after an append the merged table is new-over-old and the file is again a chain (induction over saves). The '
-                  'file-level statement C07_full is a Definition; it is REFUTED on three open classes (freed objects come back, '
-                  'hybrid XRefStm order, stale generation-0 object-stream members) with witnesses replayed on the crate.',
-    'level_note': 'Partial (rung 2): byte-level parsing is abstracted by layouts and tied by differential runs only (every history prefix: '
-                  'merged table + objects; every IncrementalDocument step: bytes equal). Trusted: Coq kernel; translator parts Inc/'
-                  'SaveFmt/Lex/Consts; gen/histgen.py; Model/Save.v (c01); extraction/OCaml driver; Rust harness. No axioms.',
+    'level_text': 'Machine-checked (Coq). BYTE LEVEL, files written by lopdf (Document::save then any number of IncrementalDocument '
+                  'saves, table and stream format): the loader model Model/Loader.v applied to the bytes of inc_save returns the overlay '
+                  'of the new objects over the loaded ones; every file of such a history is a chain of well-formed revisions whose '
+                  'merged table maps each number to the exact offset of the newest defining object (invariant good_file), loads, and any '
+                  'further update through the modelled API succeeds and stays in the family (induction over saves). Save side for ALL '
+                  'inputs: output = previous bytes ++ only the new objects at exact header-relative offsets ++ one section with Prev = '
+                  'previous xref_start (prefix also on failure); edits never touch the previous view. LAYOUT LEVEL, any producer: for all '
+                  'chains of sections -- hybrid-reference sections included, as repaired (merge_xref_stream) -- every object number gets '
+                  'the entry of the newest table that has one, in the order section / its XRefStm / Prev (merge_chain_latest, read on '
+                  'every Prev chain, cycles cut, termination on all layouts); Normal entries win, Compressed entries name their container, '
+                  'one generation per object number (repaired). The file-level statement C07_full is a Definition; it is REFUTED on one '
+                  'open class (freed objects come back: a pinned unit test fixes the table parser\'s output to in-use entries) with a '
+                  'witness replayed on the crate.',
+    'level_note': 'Partial (rung 3 for lopdf-written histories, rung 2 for other producers): for foreign files byte-level parsing is '
+                  'abstracted by layouts and tied by differential runs only (every history prefix: merged table + objects; every '
+                  'IncrementalDocument step: bytes equal). Trusted: Coq kernel; translator parts Inc/SaveFmt/Lex/Consts; gen/histgen.py; '
+                  'Model/Save.v, Model/Loader.v (c01), Model/Xref.v (c02); extraction/OCaml driver; Rust harness. No axioms.',
     'technique': 'Coq proofs by induction over revision chains and write loops + vm_compute refutations + differential correspondence',
     'design_ref': 'DESIGN.md 6 C07',
 }
